@@ -72,6 +72,22 @@ Theorem C19_unmapped_outputs_plain : forall specs inputs outputs li ds,
 Proof. exact unmapped_outputs_plain. Qed.
 Print Assumptions C19_unmapped_outputs_plain.
 
+(* dataset level: every labelled array of the dataset is a declared MapSpec output whose dims are its
+   declared axes in order; and every output computed element-wise (MapSpec with inputs) is one of the
+   labelled arrays - it is never dropped in favour of a coordinate of the same name *)
+Theorem C19_dataset_arrays : forall specs inputs outputs li ds,
+  NoDup (out_names specs) -> consistent (all_aspecs specs) = true ->
+  forallb wf_aspec (all_aspecs specs) = true ->
+  (forall ms a, In ms specs -> In a (outs ms) -> no_colon_axes a) ->
+  dataset_vars specs inputs outputs li = Ok ds ->
+  (forall a, In a (ds_arrays ds) ->
+     In (da_name a) outputs
+     /\ exists ms asp, In ms specs /\ In asp (outs ms) /\ aname asp = da_name a /\ da_dims a = indices asp)
+  /\ (forall o ms, computed_by specs o = Some ms -> In o outputs ->
+        exists a, In a (ds_arrays ds) /\ da_name a = o).
+Proof. exact dataset_arrays_spec. Qed.
+Print Assumptions C19_dataset_arrays.
+
 (* the coordinates of the merged Dataset are exactly (by name) the coordinates of its labelled arrays *)
 Theorem C19_dataset_coords_union : forall ds,
   (forall a c, In a (ds_arrays ds) -> In c (da_coords a) ->
